@@ -55,15 +55,30 @@ BOUND = {
              "for all but the first block x all strategy permutations; no counts given; set-A real samplers with both "
              "dicts in each non-joint order; NUTS assignment with both dicts reversed; "
              "legacy Gibbs: ops {sample(1),sample(2),warmup(1),warmup(2),sample(1,Nb=1),"
-             "sample(2,Nb=2)} depth<=2, strategy dict in every order (all-spy) / reversed (set A)",
+             "sample(2,Nb=2)} depth<=2, strategy dict in every order (all-spy) / reversed (set A); "
+             "initial-value facet (depth<=2, all op sequences of the interface's alphabet; hier3, hier2, gauss2): "
+             "HybridGibbs all-spy blocks (counts (3,1,2)) x ALL {constructor initial_point, initial_point attribute, "
+             "none}^blocks x {no, a decoy init_point attribute on every block density}; set-A real samplers x {the "
+             "uniform supply the main product does not use, two alternating patterns, main supply + density decoy}; one "
+             "MH block (first block, counts (1..)) and NUTS / MALA on v of gauss2 (counts (1..)) with the uniform supply "
+             "the main product does not use; legacy Gibbs all-spy and set-A blocks x ALL {density init_point, "
+             "none}^blocks, one MH block with init_point on every density, and block sampler objects built with an x0 "
+             "of their own (set A, one MH block) x {no, every} density init_point",
     "thorough": "as quick but: all assignments of {spy,conj|rto,mh,nuts,mala} kinds (hier3c: those with a NUTS/MALA "
-                "block); num_sampling_steps: full {1,2,3}^blocks product (3-block cells with MH/MALA/NUTS: the 3 all-equal "
-                "patterns + the 6 permutations of (1,2,3)); depth<=3 for cells without MH/MALA/NUTS and for cells with "
-                "exactly one such block and all-equal steps, depth<=2 otherwise; complete decision trees up to 8 decisions (6 in "
-                "depth-3 cells); NUTS additionally with max_depth 1 (steps (1..)); dict-order facet: all-spy x all "
+                "block); num_sampling_steps: full {1,2,3}^blocks product (3-block cells with MH: the 3 all-equal "
+                "patterns + the 6 permutations of (1,2,3); 3-block cells with NUTS/MALA: the 3 all-equal patterns + the 3 "
+                "rotations of (1,2,3)); depth<=3 for cells without MH/MALA/NUTS and for cells with exactly one such "
+                "block and one transition per visit (steps (1..)), depth<=2 otherwise; complete decision trees up to 8 "
+                "decisions (6 in depth-3 cells, 4 in the dict-order cells with a NUTS/MALA block); NUTS additionally with "
+                "max_depth 1 (steps (1..)); dict-order facet: all-spy x all "
                 "permutation pairs x all permutations of (1,2,3) as counts, three partial-count patterns, set A with all "
-                "permutation pairs, NUTS and MALA assignments with every non-joint order; legacy depth<=3 (<=2 with >1 MH block), "
-                "strategy dict in every order (all-spy and set A)",
+                "permutation pairs, NUTS and MALA assignments with every non-joint order; legacy depth<=3 (<=2 with >1 MH "
+                "block), strategy dict in every order (all-spy and set A); initial-value facet: decision-free cells at "
+                "depth<=3; HybridGibbs set A also x ALL supplies x {no, density decoy}; every assignment with an MH block "
+                "(counts (1..)) with the uniform supply the main product does not use; NUTS / MALA (gauss2 and hier3c) x "
+                "{other uniform supply, two alternating patterns, all-attribute} and main supply + density decoy; legacy: "
+                "every assignment with an MH block with init_point on every density, every assignment with an MH / "
+                "LinearRTO block built with an x0 of its own x {no, every} density init_point",
 }
 ASSUMPTIONS = [
     "reference joint log-densities (and the gradients of the Gaussian vector blocks, self-checked against central "
@@ -85,8 +100,16 @@ ASSUMPTIONS = [
     "all-reject, alternating paths), not completely",
     "cuqi.sampler.Gibbs has no num_sampling_steps: one transition per visit; its block samplers are re-created from "
     "the conditional at every visit (factory called with the target) and advanced with step(x)",
-    "when no initial point is given (joint hier2) the reference starts from the values the samplers announce after "
-    "construction (class-specific defaults: ones, zeros for LinearRTO); given initial points are compared strictly",
+    "HybridGibbs: for a block without a given initial point the reference starts from the value the sampler "
+    "announces after construction (class-specific defaults: ones, zeros for LinearRTO; also when only the density "
+    "carries an init_point, a route HybridGibbs does not document); a given initial_point (constructor or attribute) "
+    "is compared strictly - where the block density carries an init_point as well, either of the two is accepted as "
+    "the start of the run (the statement does not rank the routes); cuqi.sampler.Gibbs: the first sweep starts from the "
+    "density's init_point where set, else from ones (strict); an x0 given to a legacy block sampler object never "
+    "decides where a transition starts (Gibbs hands the current value to step); in every case all later sweeps and "
+    "continuation calls start from the stored values of the previous sweep",
+    "initial values are supplied as float64 1-D arrays before the Gibbs sampler is built (other representations, and "
+    "changing them on a live sampler, are not enumerated)",
     "legacy Gibbs: a call that raises (second warm-up, continuing after a warm-up-only call) is a refusal and "
     "ends the history",
     "dict orders: Python dicts keep insertion order; the blocks of a sweep are expected in the joint's parameter order "
@@ -619,8 +642,7 @@ class Judge:
             self.init_facet = (",init=density.init_point" if "dens" in codes else
                                (",init=block-sampler-x0" if cell.get("x0_decoy") else ""))
         else:
-            self.init_facet = ((",init=varied" if cell.get("init") else "")
-                               + (",density.init_point=decoy" if cell.get("dens_decoy") else ""))
+            self.init_facet = ",init=varied" if (cell.get("init") or cell.get("dens_decoy")) else ""
         for b in model.order:
             if any(np.array_equal(model.decoy(b), v) for v in (model.ival[b], np.ones(model.dim[b]),
                                                                np.zeros(model.dim[b]))):
@@ -1013,8 +1035,12 @@ def _nsteps(nb, tier, nmh, nnuts=0):
         full = [list(t) for t in itertools.product((1, 2, 3), repeat=nb)]
         if nmh + nnuts == 0 or nb < 3:
             return full
-        # MH / NUTS cells of the 3-block joint: all-equal patterns + all permutations of (1,2,3)
-        return [t for t in full if len(set(t)) in (1, 3)]
+        # MH cells of the 3-block joint: all-equal patterns + all permutations of (1,2,3); with a gradient kernel
+        # (NUTS / MALA, the expensive decision trees): all-equal patterns + the 3 rotations of (1,2,3)
+        keep = [t for t in full if len(set(t)) in (1, 3)]
+        if nnuts:
+            keep = [t for t in keep if len(set(t)) == 1 or t in ([1, 2, 3], [2, 3, 1], [3, 1, 2])]
+        return keep
     out = [[1] * nb, [2] * nb, [3, 1, 2][:nb]]
     if nnuts:
         out = [[1] * nb, [3, 1, 2][:nb]]
